@@ -275,6 +275,7 @@ func main() {
 	mode := flag.String("mode", "decide", "decide | distil | cred | levels | hist | conc | serve-script")
 	in := flag.String("in", "", "cases ndjson")
 	out := flag.String("out", "", "observations ndjson")
+	flag.StringVar(&serverBinary, "server", "", "real server binary (serve mode)")
 	flag.Parse()
 	if *in == "" || *out == "" {
 		die(2, "need -in and -out")
@@ -300,6 +301,8 @@ func main() {
 		for _, c := range cases {
 			runLevelsCase(c, ow)
 		}
+	case "serve":
+		runServe(cases, ow)
 	case "hist":
 		runHistories(cases, ow)
 	case "conc":
